@@ -549,6 +549,11 @@ def fault_sources(R, ro, kinds):
         R.need(s, "idiom: Future._compute no longer calls self._value_provider()")
         for n, c in s:
             out.append((fc, n, "provider"))
+        # ... and _compute() is itself the override point of FutureBase: a user's future class may raise from it whatever the
+        # package's own implementations do, so the scheduler's own calls of <entry>._compute() are fault sources, too
+        for m in ro.ts_methods():
+            for n, c in kit.call_sites(m, lambda c: q.attr_call(c)[1] == "_compute" and isinstance(q.attr_call(c)[0], ast.Name) and q.attr_call(c)[0].id != "self"):
+                out.append((m, n, "provider"))
     if "flush" in kinds:
         bc = ro.BatchBase.methods.get("_compute")
         R.need(bc is not None, "anchor vanished: BatchBase._compute")
